@@ -57,7 +57,9 @@ theorem drop_eq_nil_of_none {es : List E} {p : Nat} (h : es[p]? = none) : es.dro
 /-- Map: every hinted insert produces the state of the plain insert -/
 theorem insertAt_map_state (s : St) (hI : InvT s) (hm : s.multi = false) (p : Nat) (k v : Int)
     (hp : p ≤ s.size) :
-    ∃ r c, s.insertAt p k v = some r ∧ r.1 = (s.insertRoot k v c).1 := by
+    ∃ r c, s.insertAt p k v = some r ∧ r.1 = (s.insertRoot k v c).1 ∧
+      (r.2.ret = (s.insertRoot k v c).2.ret ∨
+        (r.2.ret = .it p ∧ ∃ hi hv, s.t.inorder[p]? = some (hi, k, hv))) := by
   have hS := hI.sortedS hm
   have hW := hI.sortedW
   have hlen : s.t.inorder.length = s.size := by rw [hI.size, size_eq_length]
@@ -73,7 +75,7 @@ theorem insertAt_map_state (s : St) (hI : InvT s) (hm : s.multi = false) (p : Na
   by_cases hend : p = s.size
   · rw [if_pos hend]
     cases hlast : s.t.inorder.getLast? with
-    | none => exact ⟨_, 0, rfl, rfl⟩
+    | none => exact ⟨_, 0, rfl, rfl, Or.inl rfl⟩
     | some e =>
       obtain ⟨pi, pk, pv⟩ := e
       simp only
@@ -96,8 +98,9 @@ theorem insertAt_map_state (s : St) (hI : InvT s) (hm : s.multi = false) (p : Na
             simp only [if_true] at he
             rw [List.drop_eq_nil_of_le (by omega)] at he
             simp at he)
-        exact ⟨_, 1, rfl, (insertUnder_eq s true (s.size - 1) pi k v pk pv 1 1 hh hf).1⟩
-      · rw [if_neg hk]; exact ⟨_, 1, rfl, rfl⟩
+        exact ⟨_, 1, rfl, (insertUnder_eq s true (s.size - 1) pi k v pk pv 1 1 hh hf).1,
+          Or.inl (insertUnder_eq s true (s.size - 1) pi k v pk pv 1 1 hh hf).2⟩
+      · rw [if_neg hk]; exact ⟨_, 1, rfl, rfl, Or.inl rfl⟩
   · rw [if_neg hend]
     have hplt : p < s.t.inorder.length := by omega
     cases hhint : s.t.inorder[p]? with
@@ -120,7 +123,7 @@ theorem insertAt_map_state (s : St) (hI : InvT s) (hm : s.multi = false) (p : Na
             · subst h0; simp
             · rw [if_neg h0, List.getElem?_eq_none_iff] at hprev; omega
           have hf := hfits false p hidx (by simpa using ht) (by simpa using hdrop)
-          exact ⟨_, 1, rfl, (insertUnder_eq s false p hi k v hk' hv 1 1 hhint hf).1⟩
+          exact ⟨_, 1, rfl, (insertUnder_eq s false p hi k v hk' hv 1 1 hhint hf).1, Or.inl (insertUnder_eq s false p hi k v hk' hv 1 1 hhint hf).2⟩
         | some pe =>
           obtain ⟨ppi, ppk, ppv⟩ := pe
           simp only
@@ -133,8 +136,8 @@ theorem insertAt_map_state (s : St) (hI : InvT s) (hm : s.multi = false) (p : Na
               have := take_le hW (b := ppk) (Or.inr ⟨_, hprev, Int.le_refl _⟩) e he
               omega
             have hf := hfits false p hidx (by simpa using ht) (by simpa using hdrop)
-            exact ⟨_, 2, rfl, (insertUnder_eq s false p hi k v hk' hv 2 2 hhint hf).1⟩
-          · rw [if_neg h2]; exact ⟨_, 2, rfl, rfl⟩
+            exact ⟨_, 2, rfl, (insertUnder_eq s false p hi k v hk' hv 2 2 hhint hf).1, Or.inl (insertUnder_eq s false p hi k v hk' hv 2 2 hhint hf).2⟩
+          · rw [if_neg h2]; exact ⟨_, 2, rfl, rfl, Or.inl rfl⟩
       · rw [if_neg h1]
         by_cases h2 : k > hk'
         · rw [if_pos h2]
@@ -147,7 +150,7 @@ theorem insertAt_map_state (s : St) (hI : InvT s) (hm : s.multi = false) (p : Na
             simp only
             have hf := hfits true p hidx (by simpa using htake)
               (by simp only [if_true]; rw [drop_eq_nil_of_none hnext]; simp)
-            exact ⟨_, 2, rfl, (insertUnder_eq s true p hi k v hk' hv 2 2 hhint hf).1⟩
+            exact ⟨_, 2, rfl, (insertUnder_eq s true p hi k v hk' hv 2 2 hhint hf).1, Or.inl (insertUnder_eq s true p hi k v hk' hv 2 2 hhint hf).2⟩
           | some ne =>
             obtain ⟨ni, nk, nv⟩ := ne
             simp only
@@ -159,12 +162,12 @@ theorem insertAt_map_state (s : St) (hI : InvT s) (hm : s.multi = false) (p : Na
                   simp only [if_true] at he
                   have := suffix_bound hW hnext e he
                   simp only at this; omega)
-              exact ⟨_, 3, rfl, (insertUnder_eq s true p hi k v hk' hv 3 3 hhint hf).1⟩
-            · rw [if_neg h3]; exact ⟨_, 3, rfl, rfl⟩
+              exact ⟨_, 3, rfl, (insertUnder_eq s true p hi k v hk' hv 3 3 hhint hf).1, Or.inl (insertUnder_eq s true p hi k v hk' hv 3 3 hhint hf).2⟩
+            · rw [if_neg h3]; exact ⟨_, 3, rfl, rfl, Or.inl rfl⟩
         · rw [if_neg h2]
           have e : hk' = k := by omega
           subst e
-          refine ⟨_, 0, rfl, ?_⟩
+          refine ⟨_, 0, rfl, ?_, Or.inr ⟨rfl, hi, hv, rfl⟩⟩
           unfold St.insertRoot St.insertIn
           simp only [hm, Bool.false_eq_true, if_false]
           rw [land_found hk' p s.t none hS hi hv hhint]
